@@ -343,7 +343,7 @@ class C16(fw.Property):
     gen_jobs = ["uri_kernels"]
     model_imports = ["Verif.Gen.uri_kernels", "Verif.Model.C16Str", "Verif.Model.C16"]
     quick_budget = 450
-    thorough_budget = 30000
+    thorough_budget = 20000
     design_ref = "DESIGN.md section 20"
     technique = ("Coq proofs (round-trips by induction over all strings / segment lists) over quoting kernels translated from the source and a hand-written "
                  "executable model of set_request_uri / get_request_uri / urlsplit / unquote; differential correspondence + RFC 7252 6.4/6.5 oracle")
